@@ -254,7 +254,8 @@ func execRW(args []string) string {
 		r := "Ret:0"
 		if err != nil {
 			r = "Ret:1"
-			if !errors.Is(err, h.lastErr) || !strings.HasPrefix(err.Error(), "refresh on shutdown: ") {
+			// the property: Shutdown returns the final Refresh's error (however it is worded or wrapped)
+			if !errors.Is(err, h.lastErr) {
 				r += "!wrap"
 			}
 		}
